@@ -805,3 +805,171 @@ def ws_agree(check: Check, repo: Repo, modules: list[str]) -> None:
                     sets.add(r.value)
         ok = bool(sets) and all(set(s) == {" ", "\t"} for s in sets)
         check.ob(rule, fn, f"blank set used by {fn_name}", ok, f"sets: {sorted(sets)!r}" if sets else "no explicit ' \\t' membership test: blanks are decided some other way")
+
+
+def lexer_break_conditions(check: Check, repo: Repo) -> None:
+    rule = "LEXER-LT-EVAL"
+    check.rule(
+        rule,
+        "the conditions under which read_comment / read_string stop at a line terminator, evaluated as "
+        "pure expressions over the three terminator situations (LF; lone CR; CR followed by LF), hold in "
+        "all three and in none of {letter, VT, FF, NEL, LS}: a lone CR ends a comment / an unterminated string",
+    )
+    mod = repo.mod("language.lexer")
+    probes_true = [("\n", "\nx"), ("\r", "\rx"), ("\r", "\r\nx")]
+    probes_false = [("a", "ax"), ("\x0b", "\x0bx"), ("\x0c", "\x0cx"), ("\x85", "\x85x"), (" ", " x")]
+    for fn_name in ("read_comment", "read_string"):
+        fn = repo.func("language.lexer", f"Lexer.{fn_name}")
+        loop = next((n for n in fn.body if isinstance(n, ast.While)), None)
+        if loop is None:
+            raise AnalysisError(f"{fn_name}: scanning loop missing")
+        breaks = [s for s in loop.body if isinstance(s, ast.If) and s.body and isinstance(s.body[-1], ast.Break)]
+        # only those whose test mentions a line terminator character
+        lt = [b for b in breaks if any(isinstance(c, ast.Constant) and isinstance(c.value, str) and set(c.value) & set("\r\n") for c in ast.walk(b.test))]
+        if not lt:
+            check.ob(rule, fn, f"{fn_name}: stops at line terminators", False, "no break on a line terminator found")
+            continue
+
+        def stops(char: str, body: str) -> bool:
+            for b in lt:
+                try:
+                    if Evaluator(repo, mod, {"char": char, "body": body, "position": 0, "body_length": len(body)}).eval(b.test):
+                        return True
+                except NotStatic as e:
+                    raise AnalysisError(f"{fn_name}: break condition not static: {e}") from e
+            return False
+
+        bad_t = [repr(c + "|" + b) for c, b in probes_true if not stops(c, b)]
+        bad_f = [repr(c) for c, b in probes_false if stops(c, b)]
+        check.ob(rule, lt[0], f"{fn_name}: break condition {unparse(lt[0].test)[:60]}", not bad_t and not bad_f,
+                 "stops at LF, lone CR and CR LF only" if not (bad_t or bad_f) else
+                 f"does not stop at {bad_t}; wrongly stops at {bad_f}")
+
+
+def block_string_predicates(check: Check, repo: Repo) -> None:
+    rule = "BLOCK-PREDICATES"
+    check.rule(
+        rule,
+        "print_block_string's per-line predicate deciding the forced leading newline, evaluated over probe "
+        "lines, treats empty lines and lines starting with TAB/SPACE as indented and nothing else - the "
+        "same notion dedent_block_string_lines uses (blank lines are ignored for the common indent), "
+        "otherwise stripping/reprinting a block string changes its value",
+    )
+    mod = repo.mod("language.block_string")
+    fn = repo.func("language.block_string", "print_block_string")
+    target = None
+    for s in walk_body(fn):
+        if isinstance(s, ast.Assign) and isinstance(s.targets[0], ast.Name) and s.targets[0].id == "force_leading_new_line":
+            target = s
+    if target is None:
+        raise AnalysisError("print_block_string: force_leading_new_line not found")
+    gens = [g for g in ast.walk(target.value) if isinstance(g, ast.GeneratorExp)]
+    alls = [c for c in ast.walk(target.value) if isinstance(c, ast.Call) and call_name(c) == "all"]
+    if len(gens) != 1 or len(alls) != 1:
+        check.ob(rule, target, "force_leading_new_line = ... all(<pred> for line in lines[1:])", False, unparse(target.value)[:80])
+        return
+    g = gens[0]
+    var = unparse(g.generators[0].target)
+    want = {"": True, " x": True, "\tx": True, " ": True, "x": False, " x": False, " x": False, '"': False}
+    bad = []
+    for line, expect in want.items():
+        try:
+            got = bool(Evaluator(repo, mod, {var: line}).eval(g.elt))
+        except NotStatic as e:
+            raise AnalysisError(f"predicate not static: {e}") from e
+        if got != expect:
+            bad.append(f"{line!r}->{got}")
+    ok = not bad and unparse(g.generators[0].iter) == "lines[1:]"
+    check.ob(rule, target, f"indented-or-blank predicate `{unparse(g.elt)}` over {unparse(g.generators[0].iter)}", ok,
+             "matches the dedent notion on all probes" if ok else f"differs on {bad}")
+    # dedent side: blank lines skipped
+    dd = repo.func("language.block_string", "dedent_block_string_lines")
+    skip = [s for s in walk_body(dd) if isinstance(s, ast.If) and unparse(s.test) == "indent == len(line)" and isinstance(s.body[0], ast.Continue)]
+    check.ob(rule, dd, "dedent ignores blank lines for the common indent", len(skip) == 1, "")
+    lw = repo.func("language.block_string", "leading_white_space")
+    from sa.tables import char_class  # noqa: F401
+    probes = {"": 0, "  x": 2, "\t x": 2, "x ": 0, " x": 0, "   ": 3}
+    bad = []
+    for s_, expect in probes.items():
+        got = _count_leading(repo, mod, lw, s_)
+        if got != expect:
+            bad.append(f"{s_!r}->{got}")
+    check.ob(rule, lw, "leading_white_space counts TAB/SPACE only", not bad, "all probes agree" if not bad else f"differs on {bad}")
+
+
+def _count_leading(repo: Repo, mod, fn: ast.AST, s: str):
+    """Interpret leading_white_space(s): `i = 0; for c in s: if c not in SET: return i; i += 1; return i`."""
+    body = [x for x in fn.body if not (isinstance(x, ast.Expr) and isinstance(x.value, ast.Constant))]  # type: ignore[attr-defined]
+    loop = next((x for x in body if isinstance(x, ast.For)), None)
+    if loop is None:
+        # any other implementation: try the evaluator on a single return expression
+        rets = [x for x in body if isinstance(x, ast.Return)]
+        if len(rets) == 1 and len(body) == 1:
+            try:
+                return Evaluator(repo, mod, {fn.args.args[0].arg: s}).eval(rets[0].value)  # type: ignore[attr-defined]
+            except NotStatic:
+                return None
+        return None
+    var = unparse(loop.target)
+    i = 0
+    for ch in s:
+        stop = False
+        for st in loop.body:
+            if isinstance(st, ast.If) and st.body and isinstance(st.body[0], ast.Return):
+                try:
+                    if Evaluator(repo, mod, {var: ch}).eval(st.test):
+                        stop = True
+                except NotStatic:
+                    return None
+        if stop:
+            return i
+        i += 1
+    return i
+
+
+def optional_truthiness(check: Check, repo: Repo, modules: list[str], rule: str = "OPTIONAL-TRUTHINESS",
+                        str_attrs: tuple[str, ...] = ()) -> None:
+    from rules.write_effect import top_heads
+    from sa.mtypes import MTypes
+
+    check.rule(
+        rule,
+        "a value typed `int | None` is never tested by bare truthiness (0 is a legitimate value distinct "
+        "from None: max_tokens=0, max_errors=0), and the attributes listed as 'None means absent' "
+        "(deprecation_reason: an empty reason is still deprecated) are tested with `is None` / `is not "
+        "None` only - the form used at all of the package's other sites",
+    )
+    mt = MTypes.get(repo)
+    n = 0
+    for mn in modules:
+        mod = repo.mod(mn)
+        for node in ast.walk(mod.tree):
+            tests: list[ast.AST] = []
+            if isinstance(node, (ast.If, ast.While, ast.IfExp)):
+                tests = [node.test]
+            elif isinstance(node, ast.BoolOp):
+                tests = list(node.values)
+            elif isinstance(node, ast.UnaryOp) and isinstance(node.op, ast.Not):
+                tests = [node.operand]
+            for t in tests:
+                if not isinstance(t, (ast.Name, ast.Attribute)):
+                    continue
+                ty = mt.type_of(t)
+                heads = top_heads(ty) if ty else set()
+                is_opt_int = heads == {"builtins.int", "None"}
+                is_listed = isinstance(t, ast.Attribute) and t.attr in str_attrs or isinstance(t, ast.Name) and t.id in str_attrs
+                if is_opt_int or is_listed:
+                    n += 1
+                    check.ob(rule, t, f"truthiness test of `{unparse(t)}` in {qualname_of(t)}", False,
+                             f"`{unparse(t)}` has type {ty or 'listed attribute'}: a falsy non-None value (0 / empty reason) is treated like None")
+        # every explicit None-test of the listed attributes / optional ints counts as a discharged instance
+        for node in ast.walk(mod.tree):
+            if isinstance(node, ast.Compare) and len(node.ops) == 1 and isinstance(node.ops[0], (ast.Is, ast.IsNot)) \
+                    and isinstance(node.comparators[0], ast.Constant) and node.comparators[0].value is None:
+                l = node.left
+                ty = mt.type_of(l) if isinstance(l, (ast.Name, ast.Attribute)) else None
+                heads = top_heads(ty) if ty else set()
+                if heads == {"builtins.int", "None"} or (isinstance(l, ast.Attribute) and l.attr in str_attrs) or (
+                        isinstance(l, ast.Name) and l.id in str_attrs):
+                    n += 1
+                    check.ob(rule, node, f"`{unparse(node)}` in {qualname_of(node)}", True, "explicit None test")
